@@ -212,16 +212,32 @@ BENIGN = [
     ("extend-right-index-from-end", [(BU, "    return lambda g: g[: len(seq)] if argnum == 0 else g[len(seq) + argnum - 1]", "    return lambda g: g[: len(seq)] if argnum == 0 else g[argnum - 1 - len(elts)]")]),
     ("extend-right-slice-via-len-g", [(BU, "    return lambda g: g[: len(seq)] if argnum == 0 else g[len(seq) + argnum - 1]", "    return lambda g: g[: len(g) - len(elts)] if argnum == 0 else g[len(seq) + argnum - 1]")]),
     ("array-vspace-init-asanyarray", [(NS, "        value = np.asarray(value)\n        self.shape = value.shape\n        self.dtype = value.dtype", "        arr = np.asarray(value)\n        self.dtype = arr.dtype\n        self.shape = arr.shape")]),
+    ("whole-package-reprinted-with-ast-unparse", [("<reprint>", "", "")]),
     ("where-with-zeros-like", [(NV, "    lambda ans, c, x=None, y=None: unbroadcast_f(x, lambda g: anp.where(c, g, anp.zeros(g.shape))),", "    lambda ans, c, x=None, y=None: unbroadcast_f(x, lambda g: anp.where(c, g, anp.zeros_like(g))),")]),
 ]
 
 ALL_PROPS = ["C01", "C02", "C03", "C04", "C05", "C06", "C07", "C08", "C09", "C10", "C11", "C12", "C13", "C14", "C15", "C16", "C17", "C19", "C20"]
 
 
+def _reprint(d):
+    """re-print every module through ast.unparse: new layout, quotes, parentheses and line numbers, no comments"""
+    import ast
+
+    for dp, dn, fn in os.walk(os.path.join(d, "autograd")):
+        for f in fn:
+            if f.endswith(".py"):
+                p = os.path.join(dp, f)
+                src = open(p).read()
+                open(p, "w").write(ast.unparse(ast.parse(src)) + "\n")
+
+
 def _scratch(root, edits):
     """copy <root>/autograd into a fresh scratch dir and apply the edits; returns (dir, status)"""
     d = tempfile.mkdtemp(prefix=f"vsa-{os.getpid()}-")
     shutil.copytree(os.path.join(root, "autograd"), os.path.join(d, "autograd"), ignore=shutil.ignore_patterns("__pycache__", "*.pyc"))
+    if edits and edits[0][0] == "<reprint>":
+        _reprint(d)
+        return d, "ok"
     for f, old, new in edits:
         p = os.path.join(d, f)
         try:
